@@ -28,7 +28,7 @@ def plain(v, depth=0):
 
 def selections(L, P):
     rows = [["s", None, None, None], ["i", 0], ["i", -1], ["s", 1, None, None], ["s", None, None, 2], ["s", None, None, -1], ["s", 0, 0, None], ["a", [L - 1, 0]], ["a", [0, 0]], ["m", [k % 2 == 0 for k in range(L)]]]
-    cols = [["s", None, None, None], ["i", 0], ["i", -1], ["s", None, None, -1], ["a", [P - 1, 0]], ["m", [k % 2 == 1 for k in range(P)]]]
+    cols = [["s", None, None, None], ["i", 0], ["i", -1], ["s", None, None, -1], ["a", [P - 1, 0]], ["m", [k % 2 == 1 or P == 1 for k in range(P)]], ["s", 1, 2, None], ["a", [P - 1]], ["s", None, None, P]]
     return [["isel", r, c] for r in rows for c in cols]
 
 
@@ -123,9 +123,15 @@ def execute(case):
                 try:
                     sel = c02.apply(da, op)
                     dshape, ddtype = tuple(sel.shape), sel.dtype
-                    vals = np.asarray(sel.values)
                 except Exception:
                     continue  # selection failures are C02's subject
+                try:
+                    vals = np.asarray(sel.values)
+                except Exception as e:
+                    # all selections of this alphabet are valid and none is affected by the xarray findings D13a-c:
+                    # a variable that advertises a shape but cannot be loaded violates the declared-vs-loaded clause
+                    bad("declared-but-unloadable-selection", f"{op}: declared {ddtype}{dshape}, loading raises {type(e).__name__}: {str(e)[:80]}", cls=op[1][0] + op[2][0])
+                    continue
                 n_sel += 1
                 if vals.shape != dshape or not isinstance(ddtype, np.dtype) or vals.dtype.newbyteorder("=") != ddtype.newbyteorder("="):
                     bad("declared-vs-loaded-selection", f"{op}: declared {ddtype}{dshape}, loaded {vals.dtype}{vals.shape}", cls=op[1][0] + op[2][0])
@@ -136,7 +142,7 @@ def run(res, tier, seed):
     res.rule = (
         "levels {1.1,1.5,3.1} x map projection {0,1} x {1,2,3} images + per level: 4 extreme point/channel counts, all nullable leader fields blank, optional header"
         " fields blank, every 32-bit line field at 2^32-1; in each tree every node, variable and attribute is inspected, every"
-        " variable loaded, and 60 selections per image compared before/after load. All cases are distinct products."
+        " variable loaded, and 90 selections per image compared before/after load. All cases are distinct products."
     )
     res.assumptions = ["allowed dtype kinds: b,i,u,f,c,M,m,U,S; NumPy scalars count as plain scalars"]
     nv = na = ns = 0
